@@ -606,10 +606,35 @@ func envKey(env map[*ssa.Phi]phiVal) string {
 	return strings.Join(ks, ",")
 }
 
+// trackablePhi: phis whose truth value the path search follows - booleans, and
+// nil-able values (errors, pointers) whose "truth" is being non-nil, so that a
+// result merged from several branches and tested afterwards ("err != nil")
+// keeps the connection to the branch that produced it.
+func trackablePhi(ph *ssa.Phi) bool {
+	switch t := ph.Type().Underlying().(type) {
+	case *types.Basic:
+		return t.Kind() == types.Bool
+	case *types.Interface, *types.Pointer:
+		return true
+	}
+	return false
+}
+
 func phiValue(op ssa.Value, guards []Guard, env map[*ssa.Phi]phiVal) phiVal {
 	base, pos := peel(op)
 	if b, ok := constBool(base); ok {
 		return phiVal{kind: 1, b: b == pos}
+	}
+	if isNilConst(base) {
+		return phiVal{kind: 1, b: !pos} // nil is "false"
+	}
+	if call, ok := base.(*ssa.Call); ok {
+		if cn := calleeName(&call.Call); cn == "errors.New" || cn == "fmt.Errorf" {
+			return phiVal{kind: 1, b: pos} // a fresh error is non-nil
+		}
+	}
+	if al, ok := base.(*ssa.Alloc); ok && al != nil {
+		return phiVal{kind: 1, b: pos} // address of a fresh object
 	}
 	if ph, ok := base.(*ssa.Phi); ok {
 		if pv, ok := env[ph]; ok && pv.kind != 0 {
@@ -633,84 +658,17 @@ func phiValue(op ssa.Value, guards []Guard, env map[*ssa.Phi]phiVal) phiVal {
 // path passes one of the guards... note: "passes ANY guard" blocks the path, so
 // to require several guards call it once per guard.
 func ReachAvoiding(fn *ssa.Function, from *ssa.BasicBlock, target *ssa.BasicBlock, guards []Guard) []*ssa.BasicBlock {
-	if from == nil {
-		from = fn.Blocks[0]
+	if from == nil || from == fn.Blocks[0] {
+		return ReachFromAvoiding(fn, nil, func(in ssa.Instruction) bool { return in.Block() == target }, guards, nil)
 	}
-	type node struct {
-		st   gstate
-		env  map[*ssa.Phi]phiVal
-		prev *node
+	// plain reachability from an inner block (no phi knowledge at the start)
+	if len(from.Instrs) == 0 {
+		return nil
 	}
-	start := &node{st: gstate{from, ""}, env: map[*ssa.Phi]phiVal{}}
-	seen := map[gstate]bool{start.st: true}
-	queue := []*node{start}
-	for len(queue) > 0 {
-		n := queue[0]
-		queue = queue[1:]
-		b := n.st.blk
-		if b == target {
-			var path []*ssa.BasicBlock
-			for x := n; x != nil; x = x.prev {
-				path = append([]*ssa.BasicBlock{x.st.blk}, path...)
-			}
-			return path
-		}
-		allow := []bool{true, true}
-		if len(b.Instrs) > 0 {
-			if ifi, ok := b.Instrs[len(b.Instrs)-1].(*ssa.If); ok {
-				allow[0], allow[1] = guardEdges(ifi.Cond, n.env, guards)
-			}
-		}
-		for si, s := range b.Succs {
-			if si < 2 && len(b.Succs) == 2 && !allow[si] {
-				continue
-			}
-			// compute phi env on entering s from b
-			env := n.env
-			predIdx := -1
-			for i, p := range s.Preds {
-				if p == b {
-					predIdx = i
-					break
-				}
-			}
-			var newEnv map[*ssa.Phi]phiVal
-			for _, in := range s.Instrs {
-				ph, ok := in.(*ssa.Phi)
-				if !ok {
-					break
-				}
-				if bt, ok := ph.Type().Underlying().(*types.Basic); !ok || bt.Kind() != types.Bool {
-					continue
-				}
-				if predIdx < 0 {
-					continue
-				}
-				pv := phiValue(ph.Edges[predIdx], guards, n.env)
-				if newEnv == nil {
-					newEnv = map[*ssa.Phi]phiVal{}
-					for k, v := range env {
-						newEnv[k] = v
-					}
-				}
-				if pv.kind == 0 {
-					delete(newEnv, ph)
-				} else {
-					newEnv[ph] = pv
-				}
-			}
-			if newEnv != nil {
-				env = newEnv
-			}
-			st := gstate{s, envKey(env)}
-			if seen[st] {
-				continue
-			}
-			seen[st] = true
-			queue = append(queue, &node{st: st, env: env, prev: n})
-		}
+	if from == target {
+		return []*ssa.BasicBlock{from}
 	}
-	return nil
+	return reachFromBlockStart(fn, from, func(in ssa.Instruction) bool { return in.Block() == target }, guards, nil)
 }
 
 // pathString renders a block path as positions.
@@ -1253,8 +1211,41 @@ func ReachFromAvoiding(fn *ssa.Function, startAfter ssa.Instruction, isTarget fu
 	type node struct {
 		st   gstate
 		env  map[*ssa.Phi]phiVal
+		vals map[ssa.Value]bool // truth (non-nil / true) of values tested on the way that later feed a merged result
 		prev *node
 		from int
+	}
+	// values worth remembering: operands of trackable phis
+	tracked := map[ssa.Value]bool{}
+	for _, b := range fn.Blocks {
+		for _, in := range b.Instrs {
+			ph, ok := in.(*ssa.Phi)
+			if !ok {
+				break
+			}
+			if !trackablePhi(ph) {
+				continue
+			}
+			for _, e := range ph.Edges {
+				base, _ := peel(e)
+				switch base.(type) {
+				case *ssa.Const, *ssa.Phi:
+				default:
+					tracked[base] = true
+				}
+			}
+		}
+	}
+	valsKey := func(m map[ssa.Value]bool) string {
+		if len(m) == 0 {
+			return ""
+		}
+		var ks []string
+		for v, b := range m {
+			ks = append(ks, fmt.Sprintf("%s=%v", v.Name(), b))
+		}
+		sort.Strings(ks)
+		return "|" + strings.Join(ks, ",")
 	}
 	start := &node{st: gstate{fn.Blocks[0], ""}, env: map[*ssa.Phi]phiVal{}}
 	seen := map[gstate]bool{start.st: true}
@@ -1291,9 +1282,17 @@ func ReachFromAvoiding(fn *ssa.Function, startAfter ssa.Instruction, isTarget fu
 			continue
 		}
 		allow := []bool{true, true}
+		var condBase ssa.Value
+		condPos := true
 		if len(b.Instrs) > 0 {
 			if ifi, ok := b.Instrs[len(b.Instrs)-1].(*ssa.If); ok {
 				allow[0], allow[1] = guardEdges(ifi.Cond, n.env, guards)
+				condBase, condPos = peel(ifi.Cond)
+				if known, ok := n.vals[condBase]; ok {
+					// the same value was tested before on this path: only the consistent edge is feasible
+					t := known == condPos
+					allow[0], allow[1] = allow[0] && t, allow[1] && !t
+				}
 			}
 		}
 		for si, s := range b.Succs {
@@ -1301,6 +1300,17 @@ func ReachFromAvoiding(fn *ssa.Function, startAfter ssa.Instruction, isTarget fu
 				continue
 			}
 			env := n.env
+			vals := n.vals
+			if condBase != nil && len(b.Succs) == 2 && tracked[condBase] {
+				if _, known := vals[condBase]; !known {
+					nv := map[ssa.Value]bool{}
+					for k, v := range vals {
+						nv[k] = v
+					}
+					nv[condBase] = (si == 0) == condPos
+					vals = nv
+				}
+			}
 			predIdx := -1
 			for i, p := range s.Preds {
 				if p == b {
@@ -1314,13 +1324,20 @@ func ReachFromAvoiding(fn *ssa.Function, startAfter ssa.Instruction, isTarget fu
 				if !ok {
 					break
 				}
-				if bt, ok := ph.Type().Underlying().(*types.Basic); !ok || bt.Kind() != types.Bool {
+				if !trackablePhi(ph) {
 					continue
 				}
 				if predIdx < 0 {
 					continue
 				}
 				pv := phiValue(ph.Edges[predIdx], guards, n.env)
+				if pv.kind == 0 {
+					if base, pos := peel(ph.Edges[predIdx]); base != nil {
+						if known, ok := vals[base]; ok {
+							pv = phiVal{kind: 1, b: known == pos}
+						}
+					}
+				}
 				if newEnv == nil {
 					newEnv = map[*ssa.Phi]phiVal{}
 					for k, v := range env {
@@ -1336,12 +1353,12 @@ func ReachFromAvoiding(fn *ssa.Function, startAfter ssa.Instruction, isTarget fu
 			if newEnv != nil {
 				env = newEnv
 			}
-			st := gstate{s, envKey(env)}
+			st := gstate{s, envKey(env) + valsKey(vals)}
 			if seen[st] {
 				continue
 			}
 			seen[st] = true
-			queue = append(queue, &node{st: st, env: env, prev: n})
+			queue = append(queue, &node{st: st, env: env, vals: vals, prev: n})
 		}
 	}
 	return nil
